@@ -8,6 +8,7 @@ mod c_sysl;
 mod c_gate;
 mod c_proc;
 mod c_walk;
+mod c_walktar;
 mod c_boxp;
 mod c_asm;
 mod c_time;
@@ -84,6 +85,7 @@ fn main() {
         "gate" => if replay { replay_loop(&mut out, c_gate::replay_line) } else { c_gate::run(&opts, &mut out) },
         "proc" => if replay { replay_loop(&mut out, c_proc::replay_line) } else { c_proc::run(&opts, &mut out) },
         "walk" => if replay { replay_loop(&mut out, c_walk::replay_line) } else { c_walk::run(&opts, &mut out) },
+        "walktar" => if replay { replay_loop(&mut out, c_walktar::replay_line) } else { c_walktar::run(&opts, &mut out) },
         "boxp" => if replay { replay_loop(&mut out, c_boxp::replay_line) } else { c_boxp::run(&opts, &mut out) },
         "asm" => if replay { replay_loop(&mut out, c_asm::replay_line) } else { c_asm::run(&opts, &mut out) },
         "time" => if replay { replay_loop(&mut out, c_time::replay_line) } else { c_time::run(&opts, &mut out) },
